@@ -1,1 +1,32 @@
+/-
+  C16  The supertag beam is honoured.
+  The loop theorems (`admitted_prefix`, `admitted_subset_topk`, `admitted_all_pass`, `filter_off`,
+  `admitted_stops_at_failure`, `candidates_sorted`, `leaf_tags_admitted`, `returned_valid`) are in
+  Props/SearchBasics.lean; this file adds the consequence for the whole search:
+  tags excluded by the beam are not available, so a sentence whose only derivations need them fails.
+-/
 import Depccg.Props.SearchBasics
+
+namespace Depccg.SearchProps
+open Depccg Search
+
+/-- if no complete parse can be built from the admitted tags, nothing is returned -/
+theorem excluded_tags_unavailable (pick : Pick) (g : Grammar) (s : Sent) (cfg : Cfg) (hp : PickOK pick)
+    (h : ¬ ∃ d, LicensedRoot g s cfg d) : (runWith pick g s cfg).results = [] := by
+  cases hres : (runWith pick g s cfg).results with
+  | nil => rfl
+  | cons r rest =>
+    exfalso
+    have hr : r ∈ (runWith pick g s cfg).results := by rw [hres]; exact List.mem_cons_self
+    exact h ⟨r.d, (returned_valid pick g s cfg hp r hr).1⟩
+
+/-- every leaf of every returned parse carries a tag among the `pruning` best of its token that,
+    with the filter on, passed the probability test -/
+theorem leaf_tags_within_beam (pick : Pick) (g : Grammar) (s : Sent) (cfg : Cfg) (hp : PickOK pick) :
+    ∀ r ∈ (runWith pick g s cfg).results, ∀ tc ∈ leafCats r.d,
+      ∃ sc, (sc, tc.2) ∈ admitted s cfg tc.1 ∧ (sc, tc.2) ∈ topK s cfg tc.1 := by
+  intro r hr tc htc
+  obtain ⟨sc, hsc⟩ := leaf_tags_admitted g s cfg r.d (returned_valid pick g s cfg hp r hr).1.1 tc htc
+  exact ⟨sc, hsc, admitted_subset_topk s cfg tc.1 _ hsc⟩
+
+end Depccg.SearchProps
